@@ -287,6 +287,8 @@ def main(argv=None):
     ap.add_argument("--shards", type=int)
     ap.add_argument("--only", action="append", help="run only this subcheck (debugging)")
     ap.add_argument("--no-evidence", action="store_true")
+    ap.add_argument("--no-regressions", action="store_true",
+                    help="skip the saved replay files (developer option: measures what the generated search alone finds)")
     a = ap.parse_args(argv)
     prop_id = a.prop.upper()
     try:
@@ -330,7 +332,7 @@ def main(argv=None):
     # ---- regressions first --------------------------------------------------------------------
     known = load_known(prop_id)
     open_by_bucket = {f["bucket"]: f for f in known if f.get("status") == "open"}
-    reg_files = sorted(glob.glob(os.path.join(VERIF, "regressions", prop_id, "*.json")))
+    reg_files = [] if a.no_regressions else sorted(glob.glob(os.path.join(VERIF, "regressions", prop_id, "*.json")))
     ctx0 = Ctx(prop_id, a.tier, seed)
     n_reg = 0
     confirmed_open = set()
